@@ -191,7 +191,8 @@ impl Property for C06 {
         }
         // 0 = stdin, 1 = a file argument behind the opener seam, 2 = that file as the only
         // entry of a directory argument
-        case.set("via", *rng.pick(&[0i64, 0, 0, 1, 2]));
+        // 3 = several file arguments, the stream cut at gaps
+        case.set("via", *rng.pick(&[0i64, 0, 0, 1, 2, 3]));
         let mut wish = PipeWish::any();
         wish.allow_corpus = false;
         if pol == Policy::Stdout {
@@ -211,6 +212,17 @@ impl Property for C06 {
             if has_opt(&case.opts, "--take") {
                 // jawk's own read-ahead on files hides how far it really got
                 case.set("via", 0);
+            } else if case.param("via") == 3 {
+                let gaps: Vec<usize> = (0..case.pieces.len()).filter(|i| case.pieces[*i].kind == Kind::Gap).collect();
+                for _ in 0..rng.range(1, 2) {
+                    if !gaps.is_empty() {
+                        let i = *rng.pick(&gaps);
+                        let l = case.pieces[i].bytes.0.len();
+                        case.pieces[i].cut = Some(rng.below(l + 1));
+                    }
+                }
+                let datas = split_files(&case);
+                case.files = datas.iter().map(|d| gen_file_plan(rng, d.len())).collect();
             } else {
                 case.files = vec![gen_file_plan(rng, case.stream().len())];
             }
@@ -252,10 +264,11 @@ impl Property for C06 {
                 ),
             );
         }
-        let via = if case.files.len() == 1 && !has_opt(&case.opts, "--take") && !case.opts.iter().flatten().any(|t| t.contains('&')) {
-            case.param("via")
-        } else {
-            0
+        let no_early_stop = !has_opt(&case.opts, "--take") && !case.opts.iter().flatten().any(|t| t.contains('&'));
+        let via = match case.param("via") {
+            v @ (1 | 2) if no_early_stop && case.files.len() == 1 => v,
+            3 if no_early_stop && case.files.len() > 1 && case.files.len() == split_files(case).len() => 3,
+            _ => 0,
         };
         let r = match via {
             1 => {
@@ -273,6 +286,12 @@ impl Property for C06 {
                 let r = ctx.exec(sim_dir_spec(case, &dir, &paths, &[noisy.clone()], &case.files));
                 let _ = std::fs::remove_dir_all(&dir);
                 r
+            }
+            3 => {
+                let datas = split_files(case);
+                let paths = ctx.fresh_paths(datas.len());
+                ctx.stats.probe("noisy stream delivered as several file arguments");
+                ctx.exec(sim_files_spec(case, &paths, &datas, &case.files))
             }
             _ => ctx.exec(case_spec(case, &noisy)),
         };
